@@ -19,7 +19,7 @@ inline ref::RBmp bmpFromSpec(const Line& l) {
 	if (b.bits != 1 && b.bits != 4 && b.bits != 8) throw std::runtime_error("bad bmp depth in plan");
 	b.w = static_cast<int32_t>(l.u("w", 0));
 	b.h = static_cast<int32_t>(l.i("h", 0));
-	if (b.w < 0 || b.w > 20000 || b.rows() > 4096 || bmpPitchCheck(b) > (8u << 20)) throw std::runtime_error("bmp spec too large");
+	if (b.w < 0 || b.w > 20000 || b.rows() > 140000 || bmpPitchCheck(b) > (8u << 20)) throw std::runtime_error("bmp spec too large");
 	b.clrUsed = static_cast<uint32_t>(l.u("used", 0));
 	if (b.clrUsed > (1u << b.bits)) b.clrUsed = 1u << b.bits;
 	size_t npal = b.clrUsed ? b.clrUsed : (1u << b.bits);
@@ -40,7 +40,7 @@ inline ref::RTileset tilesetFromSpec(const Line& l) {
 	ref::RTileset t;
 	Rng r(l.u("seed", 1));
 	uint64_t tiles = l.u("tiles", 1);
-	if (tiles > 64) throw std::runtime_error("tileset too large");
+	if (tiles > 4200) throw std::runtime_error("tileset too large");
 	t.h = static_cast<uint32_t>(32 * tiles);
 	for (auto& c : t.palette) { auto v = prngBytes(r.next(), 4); memcpy(c.data(), v.data(), 4); }
 	t.rows = prngBytes(r.next(), 32 * static_cast<size_t>(t.h));
